@@ -199,7 +199,13 @@ def read_main(src, failures):
     for s in branch.body:
         if isinstance(s, ast.If) and norm(s.test) == 'not config.get_output_kafka_server()' and len(s.body) == 1:
             pool_stmt = norm(s.body[0])
-    if POOL_NEW in pb and pool_stmt == POOL_FILE and groups_ok \
+    # no statement of the branch may touch mapping_groups before the starmap (re-splitting, filtering, re-ordering the tasks)
+    first_if = ([i for i, s in enumerate(branch.body) if isinstance(s, ast.If)] or [len(branch.body)])[0]
+    touched = [norm(s)[:120] for s in branch.body[:first_if]
+               if any(isinstance(x, ast.Name) and x.id == 'mapping_groups' for x in ast.walk(s))]
+    if touched:
+        failures.append('__main__: mapping_groups is used/changed inside the multi-process branch before the starmap: ' + ' ; '.join(touched))
+    if POOL_NEW in pb and pool_stmt == POOL_FILE and groups_ok and not touched \
             and pb.index(POOL_NEW) < [i for i, s in enumerate(branch.body) if isinstance(s, ast.If)][0]:
         m['poolStarmapAllGroups'] = True
     else:
@@ -277,7 +283,10 @@ def read_lib(src, failures):
     branch = body[i_if[0]]
     pb = [norm(s) for s in branch.body]
     assigns = [t for t in pb if t.startswith('triples')]
-    if POOL_NEW in pb and assigns == [LIB_POOL] and pb.index(POOL_NEW) < pb.index(LIB_POOL):
+    touched = [t[:120] for t in pb[:pb.index(LIB_POOL)] if 'mapping_groups' in t] if LIB_POOL in pb else []
+    if touched:
+        failures.append('materialize_set: mapping_groups is used/changed inside the multi-process branch before the starmap: ' + ' ; '.join(touched))
+    if POOL_NEW in pb and assigns == [LIB_POOL] and pb.index(POOL_NEW) < pb.index(LIB_POOL) and not touched:
         lib['pool'] = 'unionStar'
     else:
         failures.append('materialize_set: multi-process branch is not `' + LIB_POOL + '`; found: ' + ' ; '.join(pb)[:400])
